@@ -265,10 +265,14 @@ def run_instance(mods, spec, header, forest, asmcls, seed, max_pairs, selftest_s
         else:
             gw.append(gauss_nodes(kv.mesh, nqp)[1])
     tgrid = tuple(grid)
-    X = geo.grid_eval(tgrid)
-    J = geo.grid_jacobian(tgrid)
+    nsym = d * (d + 1) // 2
+    NT = tuple(len(x) for x in grid)
+    # canonical shapes (C order), as the generated __init__ does with .reshape(N + (-1,)): some evaluators drop
+    # axes of length 1 (e.g. grid_hessian of a 1-D map returns N + (1,))
+    X = np.asarray(geo.grid_eval(tgrid)).reshape(NT + (g,))
+    J = np.asarray(geo.grid_jacobian(tgrid)).reshape(NT + (g, d))
     try:
-        HG = geo.grid_hessian(tgrid)
+        HG = np.asarray(geo.grid_hessian(tgrid)).reshape(NT + (g, nsym))
     except Exception:
         HG = None
     fdat = {}
@@ -279,16 +283,16 @@ def run_instance(mods, spec, header, forest, asmcls, seed, max_pairs, selftest_s
         shp = tuple(inp['shape'])
         f = args[nm]
         if inp['physical']:
-            val = np.asarray(f(*[X[..., m] for m in range(g)]))
+            val = np.asarray(f(*[X[..., m] for m in range(g)])).reshape(NT + shp)
             fdat[nm] = {'physical': True, 'shape': shp, 'val': val}
         else:
-            ent = {'physical': False, 'shape': shp, 'val': f.grid_eval(tgrid)}
+            ent = {'physical': False, 'shape': shp, 'val': np.asarray(f.grid_eval(tgrid)).reshape(NT + shp)}
             try:
-                ent['jac'] = f.grid_jacobian(tgrid)
+                ent['jac'] = np.asarray(f.grid_jacobian(tgrid)).reshape(NT + shp + (d,))
             except Exception:
                 ent['jac'] = None
             try:
-                ent['hess'] = f.grid_hessian(tgrid) if len(shp) <= 1 else None
+                ent['hess'] = np.asarray(f.grid_hessian(tgrid)).reshape(NT + shp + (nsym,)) if len(shp) <= 1 else None
             except Exception:
                 ent['hess'] = None
             fdat[nm] = ent
